@@ -127,14 +127,36 @@ def instances(r):
     out.append({"kind": "chord.over-under", "site": "chord.overseg",
                 "calls": [("over_ab", "chord.overseg", (ci, cj), {}),
                           ("under_ba", "chord.underseg", (cj, ci), {})], "nt": nts})
-    # multipitch on a shared time base
+    # over/under-segmentation of arbitrary interval lists: different spans, gaps,
+    # a single segment that starts or ends inside a segment of the other side
+    if r.random() < 0.5:
+        gc = gb
+    else:
+        lo = ga[0, 0] + r.randrange(0, 64) / Q
+        gc = np.array([[lo, lo + r.randrange(1, 256) / Q]])
+    out.append({"kind": "chord.over-under", "site": "chord.overseg",
+                "calls": [("over_ab", "chord.overseg", (ga, gc), {}),
+                          ("under_ba", "chord.underseg", (gc, ga), {})],
+                "nt": ("over-under-gapped", ga, gc)})
+    out.append({"kind": "chord.over-under", "site": "chord.overseg",
+                "calls": [("over_ab", "chord.overseg", (gc, ga), {}),
+                          ("under_ba", "chord.underseg", (ga, gc), {})],
+                "nt": ("over-under-gapped-r", ga, gc)})
+    # multipitch on a shared time base (identical, or equal to the last few ulps
+    # as two tools computing k*hop differently would write it)
     t, fr = gen.multipitch(r, n_frames=r.randrange(1, 12))
     _, efr = gen.related_multipitch(r, t, fr)
     if len(efr) == len(fr):
         mw = r.choice([0.5, 0.25, 1.0])
-        out.append(two("multipitch.metrics", (t, fr, t.copy(), efr),
-                       (t, efr, t.copy(), fr), {"window": mw},
-                       ("mp", t, fr, efr, mw)))
+        t2 = t.copy()
+        u = r.random()
+        if u < 0.2:
+            t2 = np.nextafter(t, np.inf)
+        elif u < 0.4:
+            t2 = np.nextafter(t, -np.inf) if t[0] > 0 else np.nextafter(t, np.inf)
+        out.append(two("multipitch.metrics", (t, fr, t2, efr),
+                       (t2, efr, t, fr), {"window": mw},
+                       ("mp", t, t2, fr, efr, mw)))
     # notes
     n = tasks.gen_transcription(r)
     if len(n["ref_iv"]) and len(n["est_iv"]):
